@@ -77,17 +77,18 @@ def replay_pipeline(w):
         types = check_types(g)
         unit = {"gidx": 0, "code_path": code, "ctx": g.user_ctx, "exports": [(x.name, types[x.name].position) for x in g.exported()]}
         crate = os.path.join(d, "crate")
-        build.write_batch_crate(crate, [("r0", [unit])])
+        rn = build.unique_bin("r0")
+        build.write_batch_crate(crate, [(rn, [unit])])
         ok, failures, proc = build.build_batch_crate(crate, build.tool_vfrt("dev-hooks"), build.flavor_flags("dev-hooks"))
-        if "r0" not in ok:
+        if rn not in ok:
             print("does not compile:", failures)
             return 1
         cp = os.path.join(d, "cases.tsv")
         with open(cp, "w") as f:
             f.write("c0\t0\t%s\t7\t50000000\t%s\n" % (w["rule"], build.hexs(w["input"])))
         lp = os.path.join(d, "log")
-        build.run_batch_bin(ok["r0"], cp, lp, 1)
-        os.remove(ok["r0"])
+        build.run_batch_bin(ok[rn], cp, lp, 1)
+        os.remove(ok[rn])
         obs = build.parse_log(lp).get("c0", {})
         ui = core.UnitInfo(g)
         F, exp, facts = core.compare_case(ui, w["rule"], w["input"], obs, {})
